@@ -59,7 +59,7 @@ def r1_table(ctx):
     def D(x):
         return ('D', x, c)
     for cfg in ('dev', 'rel'):
-        an = analyse_arms(ctx, cfg, RM + 'compute_derivative', inline=('CharSet::contains',))
+        an = analyse_arms(ctx, cfg, RM + 'compute_derivative', inline=('CharSet::contains', 'CharSet::is_before', 'CharSet::is_after', 'CharSet::covers'))
         ip, fn = an.ip, an.fn
         seen = set()
         for o in an.outs:
@@ -191,7 +191,7 @@ def r2_uniform(ctx):
     ex = ('fld', e, 'expr')
     for cfg in ('dev', 'rel'):
         # what each derivative arm consults
-        an = analyse_arms(ctx, cfg, RM + 'compute_derivative', inline=('CharSet::contains',))
+        an = analyse_arms(ctx, cfg, RM + 'compute_derivative', inline=('CharSet::contains', 'CharSet::is_before', 'CharSet::is_after', 'CharSet::covers'))
         consults = {}
         for o in an.rets:
             v = leaf_variant(o, ex)
